@@ -1,6 +1,7 @@
 package c13
 
 import (
+	"bytes"
 	"encoding/base64"
 	"fmt"
 	"net"
@@ -209,8 +210,17 @@ type RtspCase struct {
 	// UdpMix (with Udp): 0 = every track over UDP; 1 = only the first track over UDP, the others interleaved;
 	// 2 = the first track interleaved, the others over UDP
 	UdpMix int `json:"udp_mix,omitempty"`
-	Steps []Step `json:"steps"`
-	Mut   Mut    `json:"mut"`
+	// PrefixSdp (publisher side): the valid ANNOUNCE carries this session description instead of the reference one.
+	// It is hostile but accepted by construction (genAcceptedSdp): the hostile RTP that follows takes its payload
+	// types, codecs and channels from it, so that the chain "odd SDP parameter -> unpacker state -> packet" is reached
+	PrefixSdp *Sdp   `json:"prefix_sdp,omitempty"`
+	Steps     []Step `json:"steps"`
+	Mut       Mut    `json:"mut"`
+	// Ticks / TicksAfter: tick counts handed to ServerManager.VerifTick (what RunLoop's one-second ticker does) while the
+	// hostile session is half-open: after the valid prefix, and after the hostile tail before the peer's EOF.
+	// Multiples of 120 run the alive check (two in a row without traffic make lal dispose the session)
+	Ticks      []uint32 `json:"ticks,omitempty"`
+	TicksAfter []uint32 `json:"ticks_after,omitempty"`
 	// FeedAfter: frames the healthy feed publishes after the hostile bytes were delivered (subscriber stages)
 	FeedAfter int   `json:"feed_after,omitempty"`
 	Slices    []int `json:"slices,omitempty"`
@@ -221,6 +231,8 @@ type RtspCase struct {
 	// Repeat > 0 (regression corpus only): the exchange is repeated on that many further fresh servers, to give a
 	// scheduling-dependent failure (lal hands the publisher's SDP to the group in a goroutine of its own) a chance
 	Repeat int `json:"repeat,omitempty"`
+
+	trackOverride []trackInfo // client-role cases: the tracks as lal's client numbers them
 }
 
 // RtspFlood: on track Track, packet F, then Cached packets F+2.. (payload Kind), then F+1 (payload Gap; "" = never
@@ -318,9 +330,71 @@ func validTracks(video, audio string) []rtspref.Track {
 	return ts
 }
 
+// sdpCodec is the codec lal unpacks a track of an accepted session description as.
+func sdpCodec(tr SdpTrack) string {
+	switch tr.Media {
+	case "video":
+		switch tr.Enc {
+		case "H264":
+			return "avc"
+		case "H265":
+			return "hevc"
+		}
+	case "audio":
+		switch {
+		case strings.EqualFold(tr.Enc, "MPEG4-GENERIC"):
+			return "aac"
+		case strings.EqualFold(tr.Enc, "PCMA"), tr.NoRtpmap && tr.PT == 8:
+			return "pcma"
+		case strings.EqualFold(tr.Enc, "PCMU"), tr.NoRtpmap && tr.PT == 0:
+			return "pcmu"
+		case strings.EqualFold(tr.Enc, "opus"):
+			return "opus"
+		}
+	}
+	return "raw"
+}
+
+// sdpTracks: track i of the description is set up on channels 2i / 2i+1.
+func sdpTracks(sd *Sdp) []trackInfo {
+	var out []trackInfo
+	for i, tr := range sd.Tracks {
+		out = append(out, trackInfo{codec: sdpCodec(tr), pt: tr.PT & 0x7f, ch: 2 * i})
+	}
+	return out
+}
+
+func setupUri(base, control string) string {
+	if strings.HasPrefix(control, "rtsp://") {
+		return control
+	}
+	return base + "/" + control
+}
+
+// prefixControls: the a=control values of the valid ANNOUNCE, in SETUP order.
+func (c *RtspCase) prefixControls() []string {
+	var out []string
+	if c.PrefixSdp != nil {
+		for _, tr := range c.PrefixSdp.Tracks {
+			out = append(out, tr.Control)
+		}
+		return out
+	}
+	for _, tr := range validTracks(c.Video, c.Audio) {
+		out = append(out, tr.Control)
+	}
+	return out
+}
+
 // tracks returns what the hostile frames can aim at after the valid prefix.
 func (c *RtspCase) tracks() []trackInfo {
 	var out []trackInfo
+	if c.trackOverride != nil {
+		return c.trackOverride
+	}
+	if c.PrefixSdp != nil && !c.subscriberSide() {
+		return sdpTracks(c.PrefixSdp)
+	}
 	if c.subscriberSide() {
 		// the feed publishes avc + aac; lal's SDP: video pt 96 streamid=0, audio pt 97 streamid=1
 		return []trackInfo{{codec: "avc", pt: 96, ch: 0}, {codec: "aac", pt: 97, ch: 2}}
@@ -368,13 +442,16 @@ func (c *RtspCase) prefix(cseq *int) []byte {
 		add("OPTIONS", uri, nil, nil)
 	case "announced", "setup", "recording":
 		add("OPTIONS", uri, nil, nil)
-		tr := validTracks(c.Video, c.Audio)
-		add("ANNOUNCE", uri, [][2]string{{"Content-Type", "application/sdp"}}, rtspref.BuildSdp(tr))
+		body := rtspref.BuildSdp(validTracks(c.Video, c.Audio))
+		if c.PrefixSdp != nil {
+			body = c.PrefixSdp.Bytes()
+		}
+		add("ANNOUNCE", uri, [][2]string{{"Content-Type", "application/sdp"}}, body)
 		if c.Stage == "announced" {
 			break
 		}
-		for i, t := range tr {
-			add("SETUP", uri+"/"+t.Control, [][2]string{{"Transport", transport(i, true)}}, nil)
+		for i, ctl := range c.prefixControls() {
+			add("SETUP", setupUri(uri, ctl), [][2]string{{"Transport", transport(i, true)}}, nil)
 		}
 		if c.Stage == "recording" {
 			add("RECORD", uri, [][2]string{{"Range", "npt=0.000-"}}, nil)
@@ -542,6 +619,147 @@ func genSdp(t *rapid.T) *Sdp {
 	return s
 }
 
+// genAcceptedSdp draws a session description that lal accepts (every line parses, every track gets its SETUP answered)
+// although its parameters are odd: clock rates 0..999 and extremes, any payload types (also the same for both tracks),
+// case variants of the encoding names, parameter sets that are short / empty / garbage / huge, AudioSpecificConfigs with
+// escape values, AU-header size parameters other than 13/3/3, static payload types without rtpmap.
+func genAcceptedSdp(t *rapid.T) *Sdp {
+	sd := &Sdp{DropLine: -1, DupLine: -1}
+	order := rapid.SampledFrom([]string{"va", "va", "av", "v", "a"}).Draw(t, "accOrder")
+	ctl := rapid.SampledFrom([][2]string{{"streamid=0", "streamid=1"}, {"trackID=1", "trackID=2"}, {"video", "audio"},
+		{hostileUri + "/v", hostileUri + "/a"}, {"streamid=0?x=1", "streamid=1?x=1"}}).Draw(t, "accControls")
+	clock := rapid.OneOf(rapid.IntRange(0, 999), rapid.SampledFrom([]int{0, 1, 999, 1000, 8000, 11025, 44100, 48000, 90000, 2147483647, -1}))
+	vpt := rapid.SampledFrom([]int{96, 98, 35, 127, 0, 8}).Draw(t, "accVideoPt")
+	apt := rapid.SampledFrom([]int{97, 111, 8, 0, 127, 96}).Draw(t, "accAudioPt")
+	if rapid.IntRange(0, 7).Draw(t, "accSamePt") == 0 {
+		apt = vpt
+	}
+	for _, k := range order {
+		tr := SdpTrack{Clock: clock.Draw(t, "accClock")}
+		if k == 'v' {
+			tr.Media, tr.PT, tr.Control = "video", vpt, ctl[0]
+			if rapid.Bool().Draw(t, "accHevc") {
+				vps, sps, pps := gen.ParamSets("hevc", 0)
+				tr.Enc = "H265"
+				tr.FmtpKind = rapid.SampledFrom([]string{"acc-valid", "acc-valid", "acc-none", "acc-no-vps", "acc-short-sets", "acc-empty-sets", "acc-garbage-sets", "acc-huge-sps"}).Draw(t, "accHevcFmtp")
+				switch tr.FmtpKind {
+				case "acc-valid":
+					tr.Fmtp = rtspref.H265Fmtp(vps, sps, pps) + "; sprop-max-don-diff=0"
+				case "acc-no-vps":
+					tr.Fmtp = "sprop-sps=" + b64(sps) + "; sprop-pps=" + b64(pps)
+				case "acc-short-sets":
+					n := rapid.IntRange(0, 6).Draw(t, "accHevcCut")
+					cut := func(b []byte) []byte {
+						if n < len(b) {
+							return b[:n]
+						}
+						return b
+					}
+					tr.Fmtp = rtspref.H265Fmtp(cut(vps), cut(sps), cut(pps))
+				case "acc-empty-sets":
+					tr.Fmtp = "sprop-vps=; sprop-sps=; sprop-pps="
+				case "acc-garbage-sets":
+					g := gen.Bytes(rapid.Uint32Range(0, 50).Draw(t, "accGarbageSeed"), rapid.SampledFrom([]int{1, 2, 3, 8, 40}).Draw(t, "accGarbageLen"))
+					tr.Fmtp = rtspref.H265Fmtp(append([]byte{0x40, 1}, g...), append([]byte{0x42, 1}, g...), append([]byte{0x44, 1}, g...))
+				case "acc-huge-sps":
+					tr.Fmtp = rtspref.H265Fmtp(vps, append(append([]byte{}, sps...), gen.Bytes(3, 3000)...), pps)
+				}
+			} else {
+				_, sps, pps := gen.ParamSets("avc", 0)
+				tr.Enc = "H264"
+				tr.FmtpKind = rapid.SampledFrom([]string{"acc-valid", "acc-valid", "acc-none", "acc-mode-0", "acc-mode-2", "acc-one-set", "acc-empty-sets", "acc-short-sps", "acc-garbage-sps", "acc-huge-sps", "acc-three-sets"}).Draw(t, "accAvcFmtp")
+				switch tr.FmtpKind {
+				case "acc-valid":
+					tr.Fmtp = rtspref.H264Fmtp(sps, pps)
+				case "acc-mode-0":
+					tr.Fmtp = "packetization-mode=0; sprop-parameter-sets=" + b64(sps) + "," + b64(pps)
+				case "acc-mode-2":
+					tr.Fmtp = "packetization-mode=2; sprop-interleaving-depth=1; sprop-parameter-sets=" + b64(sps) + "," + b64(pps) + "; profile-level-id=zzzzzz"
+				case "acc-one-set":
+					tr.Fmtp = "packetization-mode=1; sprop-parameter-sets=" + b64(sps)
+				case "acc-empty-sets":
+					tr.Fmtp = "packetization-mode=1; sprop-parameter-sets=,"
+				case "acc-short-sps":
+					tr.Fmtp = "sprop-parameter-sets=" + b64(sps[:rapid.IntRange(0, 4).Draw(t, "accSpsCut")]) + "," + b64(pps[:rapid.IntRange(0, 1).Draw(t, "accPpsCut")])
+				case "acc-garbage-sps":
+					g := gen.Bytes(rapid.Uint32Range(0, 50).Draw(t, "accGarbageSeed"), rapid.SampledFrom([]int{1, 2, 3, 8, 40}).Draw(t, "accGarbageLen"))
+					tr.Fmtp = "sprop-parameter-sets=" + b64(append([]byte{0x67}, g...)) + "," + b64(append([]byte{0x68}, g...))
+				case "acc-huge-sps":
+					tr.Fmtp = "sprop-parameter-sets=" + b64(append(append([]byte{}, sps...), gen.Bytes(3, 3000)...)) + "," + b64(pps)
+				case "acc-three-sets":
+					tr.Fmtp = "sprop-parameter-sets=" + b64(sps) + "," + b64(pps) + "," + b64(pps)
+				}
+			}
+		} else {
+			tr.Media, tr.PT, tr.Control = "audio", apt, ctl[1]
+			switch rapid.IntRange(0, 5).Draw(t, "accAudio") {
+			case 0, 1, 2:
+				tr.Enc = rapid.SampledFrom([]string{"MPEG4-GENERIC", "mpeg4-generic", "Mpeg4-Generic"}).Draw(t, "accAacName")
+				tr.Chan = rapid.SampledFrom([]int{0, 1, 2, 8, 255}).Draw(t, "accChan")
+				size := rapid.SampledFrom([]string{"profile-level-id=1;mode=AAC-hbr;sizelength=13;indexlength=3;indexdeltalength=3", "mode=AAC-lbr;sizelength=6;indexlength=2;indexdeltalength=2",
+					"mode=AAC-hbr;sizelength=0;indexlength=0;indexdeltalength=0", "mode=AAC-hbr;sizelength=16;indexlength=0", "mode=generic;sizelength=999999999999;indexlength=-3", "streamtype=5", "mode=AAC-hbr;sizelength=13;indexlength=3;indexdeltalength=3;constantduration=0"}).Draw(t, "accAuSizes")
+				tr.FmtpKind = rapid.SampledFrom([]string{"acc-asc", "acc-asc", "acc-asc-escape-freq", "acc-asc-escape-object", "acc-asc-long", "acc-asc-zero", "acc-asc-ff", "acc-no-config"}).Draw(t, "accAscKind")
+				var cfg string
+				switch tr.FmtpKind {
+				case "acc-asc":
+					cfg = fmt.Sprintf("%x", gen.Asc(rapid.IntRange(1, 5).Draw(t, "accObj"), rapid.IntRange(0, 14).Draw(t, "accFreq"), rapid.IntRange(0, 15).Draw(t, "accChanCfg")))
+				case "acc-asc-escape-freq":
+					cfg = fmt.Sprintf("%x", gen.Asc(2, 15, 2)) // index 15: a 24-bit frequency should follow, it does not
+				case "acc-asc-escape-object":
+					cfg = "f9" + rapid.SampledFrom([]string{"10", "1012", "ff", "00"}).Draw(t, "accObjEsc")
+				case "acc-asc-long":
+					cfg = "121056e500" + strings.Repeat("ab", rapid.SampledFrom([]int{0, 3, 60}).Draw(t, "accAscExtra"))
+				case "acc-asc-zero":
+					cfg = "0000"
+				case "acc-asc-ff":
+					cfg = "ffff"
+				}
+				tr.Fmtp = size
+				if cfg != "" {
+					tr.Fmtp += "; config=" + cfg
+				}
+			case 3:
+				tr.Enc, tr.Chan = rapid.SampledFrom([]string{"PCMA", "pcma", "PCMU", "pcmu"}).Draw(t, "accG711"), 1
+			case 4:
+				tr.Enc, tr.Chan = rapid.SampledFrom([]string{"opus", "OPUS"}).Draw(t, "accOpus"), 2
+				tr.Fmtp = rapid.SampledFrom([]string{"", "sprop-stereo=1", "minptime=0;maxptime=0"}).Draw(t, "accOpusFmtp")
+			default:
+				// static payload type without rtpmap
+				tr.NoRtpmap = true
+				tr.PT = rapid.SampledFrom([]int{0, 8}).Draw(t, "accStaticPt")
+				tr.Clock = 0
+			}
+		}
+		sd.Tracks = append(sd.Tracks, tr)
+	}
+	return sd
+}
+
+func (sd *Sdp) accLabels() []string {
+	var l []string
+	for _, tr := range sd.Tracks {
+		l = append(l, "prefix-sdp:"+sdpCodec(tr))
+		switch {
+		case tr.Clock <= 0:
+			l = append(l, "prefix-sdp:clock<=0")
+		case tr.Clock < 1000:
+			l = append(l, "prefix-sdp:clock-1..999")
+		case tr.Clock > 1000000:
+			l = append(l, "prefix-sdp:clock-huge")
+		}
+		if tr.FmtpKind != "" {
+			l = append(l, "prefix-sdp:fmtp-"+tr.FmtpKind)
+		}
+		if tr.NoRtpmap {
+			l = append(l, "prefix-sdp:static-pt-no-rtpmap")
+		}
+	}
+	if len(sd.Tracks) == 2 && sd.Tracks[0].PT == sd.Tracks[1].PT {
+		l = append(l, "prefix-sdp:same-pt-both-tracks")
+	}
+	return l
+}
+
 var hostileMethods = []string{"OPTIONS", "ANNOUNCE", "DESCRIBE", "SETUP", "RECORD", "PLAY", "TEARDOWN", "GET_PARAMETER", "SET_PARAMETER", "PAUSE", "options", "GET", "", "FOO"}
 
 func genReq(t *rapid.T, c *RtspCase) *Req {
@@ -644,6 +862,19 @@ func genRtspCase(t *rapid.T) RtspCase {
 	if c.Udp {
 		c.UdpMix = rapid.IntRange(0, 2).Draw(t, "udpMix")
 	}
+	if (c.Stage == "announced" || c.Stage == "setup" || c.Stage == "recording") && rapid.IntRange(0, 1).Draw(t, "prefixSdp") == 0 {
+		c.PrefixSdp = genAcceptedSdp(t)
+	}
+	if c.Stage != "none" && rapid.IntRange(0, 3).Draw(t, "ticks") == 0 {
+		pat := [][]uint32{{1}, {5}, {120, 240}, {120, 240, 360}, {1, 2, 3, 4, 5}, {240}, {600, 601}}
+		c.Ticks = rapid.SampledFrom(pat).Draw(t, "ticksBefore")
+		if rapid.Bool().Draw(t, "ticksAfterToo") {
+			c.TicksAfter = rapid.SampledFrom(pat).Draw(t, "ticksAfter")
+		}
+		if rapid.IntRange(0, 2).Draw(t, "onlyAfter") == 0 {
+			c.Ticks, c.TicksAfter = nil, c.Ticks
+		}
+	}
 	st := &rtpGenState{seq: uint16(rapid.SampledFrom([]int{0, 1000, 65530}).Draw(t, "seq0")), ts: 1000, ssrc: rapid.SampledFrom([]uint32{0, 0x1234, 0xffffffff}).Draw(t, "ssrc")}
 	n := rapid.IntRange(1, 12).Draw(t, "nsteps")
 	// media frames first (they never end the session), requests later (an error ends it)
@@ -733,13 +964,23 @@ func genRtspCase(t *rapid.T) RtspCase {
 // ---- run ----------------------------------------------------------------------------
 
 type feed struct {
-	p  *lalclient.Publisher
-	cd gen.Codecs
-	n  uint32
+	p   *lalclient.Publisher
+	sub *lalclient.Consumer // a subscriber that joined before the hostile exchange: the bystander pair
+	cd  gen.Codecs
+	n   uint32
+	err error // first error of a send on the feed's connection
 }
 
-// startFeed publishes a healthy avc+aac stream "c13feed" so that DESCRIBE is answered with an SDP.
+// startFeed publishes a healthy avc+aac stream "c13feed" (so that DESCRIBE is answered with an SDP) with an RTMP
+// subscriber already attached: the pair is the bystander that a hostile session on the same server must not disturb.
 func startFeed(s *inproc.Server) (*feed, *pbt.Violation) {
+	sub := lalclient.NewRtmpSub(s, "live", "c13feed")
+	if err := sub.JoinErr(); err != nil {
+		if v := s.PanicViolation(); v != nil {
+			return nil, v
+		}
+		lalclient.Harness("c13: the healthy feed's subscriber could not join: %v", err)
+	}
 	p := lalclient.NewPublisher(s, "live", "c13feed", 0)
 	if p.Err != nil {
 		if v := s.PanicViolation(); v != nil {
@@ -747,30 +988,80 @@ func startFeed(s *inproc.Server) (*feed, *pbt.Violation) {
 		}
 		lalclient.Harness("c13: the healthy feed could not publish: %v", p.Err)
 	}
-	f := &feed{p: p, cd: gen.Codecs{Video: "avc", Audio: "aac", AscObj: 2, AscFreq: 4, AscChan: 2}}
+	f := &feed{p: p, sub: sub, cd: gen.Codecs{Video: "avc", Audio: "aac", AscObj: 2, AscFreq: 4, AscChan: 2}}
 	for _, it := range []gen.Item{{Kind: "meta"}, {Kind: "vsh"}, {Kind: "ash"}} {
-		_ = p.SendItem(it, f.cd, 0)
+		f.note(p.SendItem(it, f.cd, 0))
 	}
 	f.frames(2)
 	return f, nil
+}
+
+func (f *feed) note(err error) {
+	if err != nil && f.err == nil {
+		f.err = err
+	}
 }
 
 func (f *feed) frames(n int) {
 	for i := 0; i < n; i++ {
 		f.n++
 		ts := f.n * 40
-		_ = f.p.SendItem(gen.Item{Kind: "video", Ts: ts, Key: true, Nals: []gen.NalSpec{{Hdr: []byte{0x65}, Len: 60, Seed: f.n, Serial: f.n}}}, f.cd, 0)
-		_ = f.p.SendItem(gen.Item{Kind: "audio", Ts: ts, ALen: 30, ASeed: f.n}, f.cd, 0)
+		f.note(f.p.SendItem(gen.Item{Kind: "video", Ts: ts, Key: true, Nals: []gen.NalSpec{{Hdr: []byte{0x65}, Len: 60, Seed: f.n, Serial: f.n}}}, f.cd, 0))
+		f.note(f.p.SendItem(gen.Item{Kind: "audio", Ts: ts, ALen: 30, ASeed: f.n}, f.cd, 0))
 	}
 	f.p.WaitIdle()
+	// lal writes to the subscriber from a goroutine of its own: the frames count as written (alive check!) only once
+	// they have arrived
+	if n > 0 && f.sub != nil && f.err == nil {
+		want := []byte{0xAF, 1, byte(f.n >> 24), byte(f.n >> 16), byte(f.n >> 8), byte(f.n)}
+		f.sub.WaitFor(func(r lalclient.Rec) bool { return bytes.HasPrefix(r.Payload, want) }, lalclient.DeliverTimeout)
+	}
 }
 
-// deliver writes prefix + tail to conn, lets a feed publish, half-closes and waits for the handler to return.
-func deliverRtsp(s *inproc.Server, conn *memconn.Conn, wire []byte, slices []int, fd *feed, feedAfter int, done func(time.Duration) bool, marker, what string) *pbt.Violation {
+// runTicks runs ServerManager.VerifTick(n) for every n, in a harness goroutine (in production the ticker runs in lal's
+// RunLoop goroutine: a panic there ends the process).  The bystander feed publishes a frame before every tick, so that
+// lal's alive check has no reason to dispose IT.
+func runTicks(s *inproc.Server, fd *feed, ticks []uint32) *pbt.Violation {
+	for _, n := range ticks {
+		n := n
+		if fd != nil {
+			fd.frames(1)
+		}
+		done := s.Go("tick", func() { s.SM.VerifTick(n) })
+		select {
+		case <-done:
+		case <-time.After(lalclient.DeliverTimeout):
+			if v := s.PanicViolation(); v != nil {
+				return v
+			}
+			if stuck, stack := pbt.StuckGoroutine("logic.(*ServerManager).VerifTick", 2*time.Second); stuck {
+				return pbt.V("tick-never-returns", "ServerManager's ticker iteration (tick %d) is still parked %v after it started, with a hostile session half-open:\n%s", n, lalclient.DeliverTimeout, head(stack, 3000))
+			}
+			select {
+			case <-done:
+			case <-time.After(4 * lalclient.DeliverTimeout):
+				lalclient.Harness("c13: tick %d did not return within %v and is not parked (machine too slow?)", n, 5*lalclient.DeliverTimeout)
+			}
+		}
+		if v := s.PanicViolation(); v != nil {
+			return v
+		}
+	}
+	return nil
+}
+
+// deliver writes the bytes to conn, lets a feed publish, runs the late ticks, half-closes and waits for the handler to return.
+func deliverRtsp(s *inproc.Server, conn *memconn.Conn, wire []byte, slices []int, fd *feed, feedAfter int, ticksAfter []uint32, done func(time.Duration) bool, marker, what string) *pbt.Violation {
 	_ = conn.WriteSliced(wire, slices) // the server may close early; allowed
 	if fd != nil && feedAfter > 0 {
 		conn.WaitPeerIdle(lalclient.IdleTimeout)
 		fd.frames(feedAfter)
+	}
+	if len(ticksAfter) > 0 {
+		conn.WaitPeerIdle(lalclient.IdleTimeout)
+		if v := runTicks(s, fd, ticksAfter); v != nil {
+			return v
+		}
 	}
 	conn.CloseWrite()
 	return waitReturn(s, done, marker, what)
@@ -785,45 +1076,60 @@ func runRtsp(c RtspCase) *pbt.Violation {
 	return runRtspOnce(c)
 }
 
+// collectResponses waits (bounded) until one RTSP response per request of the valid prefix has arrived — lal writes
+// them from a goroutine of its own — and returns what arrived.
+func collectResponses(conn *memconn.Conn, n int) string {
+	var responses []byte
+	deadline := time.Now().Add(lalclient.IdleTimeout)
+	for {
+		responses = append(responses, conn.ReadAvailable()...)
+		if strings.Count(string(responses), "RTSP/1.0 ") >= n || conn.PeerGone() || time.Now().After(deadline) {
+			return string(responses)
+		}
+		time.Sleep(200 * time.Microsecond)
+	}
+}
+
 func runRtspOnce(c RtspCase) *pbt.Violation {
 	s := newServer()
 	defer s.Close()
-	var fd *feed
-	if c.subscriberSide() {
-		var v *pbt.Violation
-		if fd, v = startFeed(s); v != nil {
-			return v
-		}
+	fd, v := startFeed(s)
+	if v != nil {
+		return v
 	}
 	cseq := 0
 	pre := c.prefix(&cseq)
 	nPrefix := cseq // requests of the valid prefix = responses to expect
 	tail := c.tail(&cseq)
 	conn := s.RtspConn()
-	if c.Udp && !c.subscriberSide() && (c.Stage == "setup" || c.Stage == "recording") {
-		// the hostile RTP / RTCP packets also go, as datagrams, to the UDP sockets lal opened for the valid SETUPs:
-		// they are handled in lal's own reader goroutines (a panic there kills the process: Isolate)
+	if nPrefix > 0 {
+		// the valid prefix first; its responses are read, so that a prefix lal refuses is counted instead of silently
+		// turning the case into a shallow one
 		_ = conn.WriteSliced(pre, c.Slices)
 		conn.WaitPeerIdle(lalclient.IdleTimeout)
-		// lal writes its responses from a goroutine of its own: wait (bounded) until one response per request of the
-		// prefix has arrived
-		var responses []byte
-		deadline := time.Now().Add(10 * time.Second)
-		for {
-			responses = append(responses, conn.ReadAvailable()...)
-			if strings.Count(string(responses), "RTSP/1.0 ") >= nPrefix || conn.PeerGone() || time.Now().After(deadline) {
-				break
+		responses := collectResponses(conn, nPrefix)
+		if ok := strings.Count(responses, "RTSP/1.0 200"); ok < nPrefix {
+			if c.PrefixSdp != nil {
+				note("rtsp-command/shallow:hostile-prefix-sdp-refused")
+			} else {
+				note("rtsp-command/shallow:valid-prefix-refused")
 			}
-			time.Sleep(200 * time.Microsecond)
+		} else {
+			note("rtsp-command/prefix-accepted")
 		}
-		c.sendDatagrams(s, string(responses))
-		pre = nil
+		if c.Udp && (c.Stage == "setup" || c.Stage == "recording" || c.Stage == "subsetup" || c.Stage == "playing") {
+			// the hostile RTP / RTCP packets also go, as datagrams, to the UDP sockets lal opened for the valid SETUPs:
+			// they are handled in lal's own reader goroutines (a panic there kills the process: Isolate)
+			c.sendDatagrams(s, responses)
+		}
+		if v := runTicks(s, fd, c.Ticks); v != nil {
+			return v
+		}
 	}
-	wire := append(pre, tail...)
-	if v := deliverRtsp(s, conn, wire, c.Slices, fd, c.FeedAfter, conn.WaitPeerDone, "rtsp.(*Server).handleTcpConnect", "rtsp"); v != nil {
+	if v := deliverRtsp(s, conn, tail, c.Slices, fd, c.FeedAfter, c.TicksAfter, conn.WaitPeerDone, "rtsp.(*Server).handleTcpConnect", "rtsp"); v != nil {
 		return v
 	}
-	return probe(s)
+	return probe(s, fd)
 }
 
 var serverPortRe = regexp.MustCompile(`server_port=(\d+)-(\d+)`)
@@ -839,7 +1145,11 @@ func (c *RtspCase) sendDatagrams(s *inproc.Server, responses string) {
 	}
 	// UDP tracks in SETUP order
 	var udpTracks []int
-	for i := range validTracks(c.Video, c.Audio) {
+	ntracks := len(c.prefixControls())
+	if c.subscriberSide() {
+		ntracks = 2
+	}
+	for i := 0; i < ntracks; i++ {
 		if c.udpTrack(i) {
 			udpTracks = append(udpTracks, i)
 		}
@@ -847,10 +1157,19 @@ func (c *RtspCase) sendDatagrams(s *inproc.Server, responses string) {
 	if len(udpTracks) != len(ports) {
 		return
 	}
-	before := uint64(0)
-	if st := s.SM.StatGroup("c13hostile"); st != nil {
-		before = st.StatPub.ReadBytesSum
+	// publisher sessions count what they read; the subscriber side's UDP readers only log (no acknowledgement: the
+	// datagrams are spaced instead)
+	counted := func() (uint64, bool) {
+		if c.subscriberSide() {
+			return 0, false
+		}
+		st := s.SM.StatGroup("c13hostile")
+		if st == nil {
+			return 0, false
+		}
+		return st.StatPub.ReadBytesSum, true
 	}
+	before, _ := counted()
 	sent := 0
 	for _, step := range c.Steps {
 		f := step.Frame
@@ -882,8 +1201,12 @@ func (c *RtspCase) sendDatagrams(s *inproc.Server, responses string) {
 		// costs 300 ms and nothing else
 		deadline := time.Now().Add(300 * time.Millisecond)
 		for time.Now().Before(deadline) {
-			st := s.SM.StatGroup("c13hostile")
-			if st == nil || st.StatPub.ReadBytesSum >= before+uint64(sent) {
+			cur, ok := counted()
+			if !ok {
+				time.Sleep(time.Millisecond)
+				break
+			}
+			if cur >= before+uint64(sent) {
 				break
 			}
 			time.Sleep(200 * time.Microsecond)
@@ -977,8 +1300,35 @@ func classifyRtsp(c RtspCase) (bool, []string) {
 	labels := []string{"stage:" + c.Stage}
 	if c.Udp {
 		labels = append(labels, lbl("transport:udp-mix%d", c.UdpMix))
-		if !c.subscriberSide() && (c.Stage == "setup" || c.Stage == "recording") {
-			labels = append(labels, "udp-datagrams-to-rtp-rtcp-sockets")
+		if c.Stage == "setup" || c.Stage == "recording" {
+			labels = append(labels, "udp-datagrams-to-publisher-rtp-rtcp-sockets")
+		}
+		if c.Stage == "subsetup" || c.Stage == "playing" {
+			labels = append(labels, "udp-datagrams-to-subscriber-rtp-rtcp-sockets")
+		}
+	}
+	if c.PrefixSdp != nil {
+		labels = append(labels, "prefix-sdp:hostile-but-accepted")
+		labels = append(labels, c.PrefixSdp.accLabels()...)
+		if c.Stage == "setup" || c.Stage == "recording" {
+			for _, st := range c.Steps {
+				if st.Frame != nil && st.Frame.Rtp != nil {
+					labels = append(labels, "prefix-sdp:followed-by-matching-rtp")
+					break
+				}
+			}
+		}
+	}
+	if len(c.Ticks) > 0 {
+		labels = append(labels, "ticks:after-prefix")
+	}
+	if len(c.TicksAfter) > 0 {
+		labels = append(labels, "ticks:after-tail")
+	}
+	for _, tk := range append(append([]uint32{}, c.Ticks...), c.TicksAfter...) {
+		if tk%120 == 0 {
+			labels = append(labels, "ticks:alive-check")
+			break
 		}
 	}
 	sl, hostile := c.stepLabels()
@@ -1006,6 +1356,7 @@ func classifyRtsp(c RtspCase) (bool, []string) {
 }
 
 func TestRtspCommand(t *testing.T) {
+	resetNotes()
 	pbt.Run(t, pbt.Spec[RtspCase]{
 		ID: "C13", Name: "rtsp-command", Gen: genRtspCase, Run: runRtsp, Classify: classifyRtsp, Isolate: true,
 		Quick: 700, Thorough: 4000,
